@@ -502,3 +502,45 @@ def r10(ctx, R):
                 R.check(ok, f'{ci.name}.{fn.name} :: the iteration returns data carrying u0', w, detail, 'a returned value does not depend on u0')
     if n < 30:
         raise AnalysisError(f'C10.R10: only {n} solver sites found in the problem classes')
+
+
+def _level_ranges(fn):
+    out = []
+    for l in ast.walk(fn):
+        if isinstance(l, ast.For) and ('levels' in ast.unparse(l.iter) or 'nlevels' in ast.unparse(l.iter)) and isinstance(l.target, ast.Name) and l.target.id == 'l':
+            out.append(ast.unparse(l.iter).replace('self.S.levels', 'S.levels').replace('len(S.levels)', 'NL').replace('self.nlevels', 'NL'))
+    return out
+
+
+def _eval_levels(text, nl):
+    """the sequence of level indices a loop head visits for NL levels; only range / reversed / list over integer arithmetic in NL"""
+    tree = ast.parse(text, mode='eval')
+    for n in ast.walk(tree):
+        ok = isinstance(n, (ast.Expression, ast.BinOp, ast.UnaryOp, ast.Add, ast.Sub, ast.USub, ast.Load, ast.Constant)) or (isinstance(n, ast.Name) and n.id in ('NL', 'range', 'reversed', 'list')) or (isinstance(n, ast.Call) and isinstance(n.func, ast.Name) and n.func.id in ('range', 'reversed', 'list') and not n.keywords)
+        if not ok or (isinstance(n, ast.Constant) and not isinstance(n.value, int)):
+            raise AnalysisError(f'level loop `{text}` is outside the vocabulary of C10.R11')
+    return list(eval(compile(tree, '<level loop>', 'eval'), {'__builtins__': {}}, {'NL': nl, 'range': range, 'reversed': reversed, 'list': list}))
+
+
+@rule('C10', 'C10.R11', 'the level hierarchy is traversed completely and alike in both controllers: the loops over levels in predict / it_down / it_up are range(1, NL) (burn-in: restrict to every coarse level), range(1, NL-1) (down: the coarsest transfer is the coarse stage), range(NL-1, 0, -1) (up: every pair down to the finest) - in controller_nonMPI and controller_MPI; a bound that is off by one skips the transfer of one level pair (its tau is never built / its correction never prolonged)', floor=8)
+def r11(ctx, R):
+    repo = ctx.repo
+    CCD = 'pySDC/implementations/controller_classes/'
+    want = {'predict': ['range(1, NL)', 'range(NL - 1, 0, -1)'], 'it_down': ['range(1, NL - 1)'], 'it_up': ['range(NL - 1, 0, -1)']}
+    n = 0
+    for rel, cn in ((CCD + 'controller_nonMPI.py', 'controller_nonMPI'), (CCD + 'controller_MPI.py', 'controller_MPI')):
+        ci = repo.cls(rel, cn)
+        for m, exp in want.items():
+            fn = ci.methods.get(m)
+            if fn is None:
+                raise AnalysisError(f'{cn}.{m} is gone - re-confirm C10.R11')
+            got = _level_ranges(fn)
+            w = f'{rel}:{cn}.{m}'
+            R.fn(w)
+            for k, e in enumerate(exp):
+                n += 1
+                same = k < len(got) and all(_eval_levels(got[k], nl) == _eval_levels(e, nl) for nl in range(1, 7))
+                R.check(same, f'{cn}.{m} :: level loop #{k + 1} visits the levels of {e}', w, e, got[k] if k < len(got) else 'missing')
+            R.check(len(got) == len(exp), f'{cn}.{m} :: {len(exp)} loop(s) over the level hierarchy', w, exp, got)
+    if n < 8:
+        raise AnalysisError(f'C10.R11: only {n} level loops checked')
